@@ -20,7 +20,10 @@ rm -f $WT/$DDIR/zz_$DN; git -C $WT checkout -q -- . ; git -C $WT clean -fdq
 echo "suite_with_patch=$T demo_with_patch_exit=$DW demo_without_patch_exit=$DWO"
 # now against /repo
 git -C /repo apply $SRC/patch.diff || { echo "PATCH-DOES-NOT-APPLY-TO-REPO"; exit 2; }
+cp /verif/evidence/$P.json /tmp/seed/$P.evidence.bak 2>/dev/null
 OUT=$(cd /verif && ./check $P $TIER 2>&1); CE=$?
+cp /verif/evidence/$P.json /tmp/seed/$P/evidence_with_change_$K.json 2>/dev/null
+cp /tmp/seed/$P.evidence.bak /verif/evidence/$P.json 2>/dev/null
 git -C /repo checkout -q -- . ; git -C /repo clean -fdq -e stgutgmain >/dev/null
 echo "$OUT" | grep -E "^(VIOLATION|KNOWN|HARNESS|BUILD|SUMMARY)" | cut -c1-400
 echo "check_exit=$CE"
